@@ -1,4 +1,6 @@
 """C05 — checksum validation never lets a malformed or corrupted frame through."""
+import pyubx2.ubxhelpers as uh
+
 import common
 import gen
 import impl
@@ -54,6 +56,18 @@ def run(ctx):
         inputs.append(bytes(rng.randrange(256) for _ in range(rng.randrange(0, 20))))
     # long input with wrong length field (error-message path)
     inputs.append(b"\xb5\x62\x01\x02\x05\x00" + bytes(70000))
+    # long frames (chunked / folded checksum routines change behaviour at 4096, 8192, ...): with the textbook checksum,
+    # with the checksum the implementation's own routine computes (a malformed frame if the two differ), and with
+    # the last byte corrupted
+    for body in gen.long_bodies(rng, ctx.quick()):
+        if len(body) < 6:
+            continue
+        pl = body[: min(len(body), 65535)]
+        content = bytes([0x77, 0x01]) + len(pl).to_bytes(2, "little") + pl
+        f = b"\xb5\x62" + content + gen.fletcher(content)
+        inputs.append(f)
+        inputs.append(b"\xb5\x62" + content + uh.calc_checksum(content))
+        inputs.append(f[:-1] + bytes([f[-1] ^ 0x10]))
     ctx.count("inputs", len(inputs))
 
     cmds = []
@@ -78,7 +92,7 @@ def run(ctx):
         except Exception as e:  # foreign exception: C08 reports it; here it is "not UBXParseError"
             ctx.count("foreign:" + type(e).__name__)
     if accepted:
-        wf = common.run_model(["WF " + gen.hx(x) for x, _ in accepted])
+        wf = common.wf_oracle([x for x, _ in accepted])
         for (x, m), w in zip(accepted, wf):
             if w != "1":
                 ctx.fail("accepted-malformed", {"op": "PARSE", "validate": 1, "hex": x.hex()},
